@@ -89,9 +89,28 @@ def WellFormed (defs : List (Def K)) : Prop :=
   ∀ d ∈ defs, ∀ qvars gates, d.spec = .seq qvars gates →
     ∀ e ∈ gates, ∀ q ∈ e.qubits, ∃ v, q = Qubit.var v ∧ v ∈ qvars
 
+/-- every qubit of the sequence element is one of the definition's qubit variables -/
+def BoundQubits (qvars : List String) (e : Gate K) : Prop :=
+  ∀ q ∈ e.qubits, ∃ v, q = Qubit.var v ∧ v ∈ qvars
+
+/-- **A malformed sequence element** (possible only for definitions that bypassed
+`DefGateSequence::try_new`): the first element, in order, one of whose qubits is not a qubit variable of the
+definition, and within it the first such qubit — reported as `InvalidGateSequenceElementQubit` if it is not a
+variable at all, as `UndefinedGateSequenceElementQubit` if it is an unbound variable. -/
+inductive ElemErr (qvars : List String) : List (Gate K) → Err → Prop
+  | invalid {pre e post} {vs : List String} {q rest} :
+      (∀ e' ∈ pre, BoundQubits qvars e') → e.qubits = vs.map Qubit.var ++ q :: rest →
+      (∀ v ∈ vs, v ∈ qvars) → (∀ v, q ≠ Qubit.var v) →
+      ElemErr qvars (pre ++ e :: post) (.invalidElemQubit q)
+  | undefined {pre e post} {vs : List String} {v rest} :
+      (∀ e' ∈ pre, BoundQubits qvars e') → e.qubits = vs.map Qubit.var ++ Qubit.var v :: rest →
+      (∀ w ∈ vs, w ∈ qvars) → v ∉ qvars →
+      ElemErr qvars (pre ++ e :: post) (.undefinedElemQubit v)
+
 /-- **Misuse of one invocation**, with the error it is reported as. The checks have a fixed priority:
 parameter count, then modifiers, then a cycle (the definition is already being expanded), then qubit
-count, then the first non-fixed qubit argument. -/
+count, then the first non-fixed qubit argument, then (for definitions that bypassed validation) the first
+malformed element qubit. -/
 inductive LocalErr (defs : List (Def K)) (sel : String → Bool) (stack : List String) : Instr K → Err → Prop
   | paramCount {g d} : Selected defs sel g d → d.params.length ≠ g.params.length →
       LocalErr defs sel stack (.gate g) (.paramCount d.params.length g.params.length)
@@ -107,6 +126,10 @@ inductive LocalErr (defs : List (Def K)) (sel : String → Bool) (stack : List S
       g.mods = [] → d.name ∉ stack → d.spec = .seq qvars gates → g.qubits.length = qvars.length →
       g.qubits = fs.map Qubit.fixed ++ q :: post → (∀ n, q ≠ Qubit.fixed n) →
       LocalErr defs sel stack (.gate g) (.nonFixedQubit q)
+  | elem {g d qvars gates} {fs : List Nat} {e} : Selected defs sel g d → d.params.length = g.params.length →
+      g.mods = [] → d.name ∉ stack → d.spec = .seq qvars gates → g.qubits.length = qvars.length →
+      g.qubits = fs.map Qubit.fixed → ElemErr qvars gates e →
+      LocalErr defs sel stack (.gate g) e
 
 /-- **Which error, where.** `ErrAt defs sel stack src e`: walking `src` in order and unfolding selected
 invocations depth-first, the first misuse met is reported as `e`. -/
@@ -142,5 +165,54 @@ not selected, or is reachable (through any sequence definitions) from one that i
 def Kept (defs : List (Def K)) (sel : String → Bool) (d : Def K) : Prop :=
   d.spec = .other ∨ sel d.name = false ∨
     ∃ u, u ∈ seqNames defs ∧ sel u = false ∧ Reach defs u d.name
+
+/-- `allowed` without `name` -/
+def removeName (allowed : List String) (name : String) : List String := allowed.filter (· != name)
+
+theorem removeName_length_lt (allowed : List String) (name : String) (h : name ∈ allowed) :
+    (removeName allowed name).length < allowed.length := by
+  unfold removeName
+  induction allowed with
+  | nil => simp at h
+  | cons x xs ih =>
+    by_cases hx : x = name
+    · subst hx
+      have := List.length_filter_le (fun y => y != x) xs
+      simp; omega
+    · have hm : name ∈ xs := by
+        cases h with
+        | head => exact absurd rfl hx
+        | tail _ h' => exact h'
+      have := ih hm
+      simp [hx]; omega
+
+/-- **Second, independent Bool oracle for the expansion** (a verifier, written from the relational
+specification): consume from `out` the expansion of `src` and return what is left. No fuel and no stack: a
+definition being unfolded is removed from the `allowed` names for its own body, which loses nothing because
+a finite derivation contains no cycle (`derivable_acyclic`). One-level unfolding and its side conditions are
+`gate_sequence_from_instruction` with an empty stack (proved `↔ Selected ∧ Instantiates`).
+`verifyPure defs sel (defs.map name) src out = some [] ↔ ExpandsPure defs sel src out` (`C20_verifyPure_iff`). -/
+def verifyPure [DecidableEq K] (defs : List (Def K)) (sel : String → Bool) :
+    List String → List (Instr K) → List (Instr K) → Option (List (Instr K))
+  | _, [], out => some out
+  | allowed, i :: rest, out =>
+    match gateSequenceFromInstruction defs sel i [] with
+    | .error _ => none
+    | .ok none =>
+      match out with
+      | o :: out' => if o = i then verifyPure defs sel allowed rest out' else none
+      | [] => none
+    | .ok (some (body, name)) =>
+      if _h : name ∈ allowed then
+        match verifyPure defs sel (removeName allowed name) body out with
+        | some out' => verifyPure defs sel allowed rest out'
+        | none => none
+      else none
+termination_by allowed src => (allowed.length, src.length)
+decreasing_by
+  all_goals simp_wf
+  · exact Prod.Lex.right _ (by simp)
+  · exact Prod.Lex.left _ _ (removeName_length_lt allowed name _h)
+  · exact Prod.Lex.right _ (by simp)
 
 end QV.C20
